@@ -648,8 +648,14 @@ static void account_step(int kind) {
   if (now_ns > max_sim_ns) finish(11, "violation", "STUCK-simtime", "simulated time budget exhausted");
   (void)kind;
 }
+static void sched_point_inner(int kind);
 void sim_sched_point(int kind) {
   if (!sim_active || me < 0) return;
+  const int saved_errno = errno; /* the runtime's own system calls must not leak into the code under test */
+  sched_point_inner(kind);
+  errno = saved_errno;
+}
+static void sched_point_inner(int kind) {
   account_step(kind);
   if (preempt_off) return;
   /* fairness bound */
@@ -700,8 +706,14 @@ void sim_access(const void* addr, size_t size, int kind) {
 }
 /* cpu_relax() hook: the caller is spinning; somebody else must run */
 void (*sim_hook_spin)(void);
+static void spin_hint_inner(void);
 void fiber_verif_spin_hint(void) {
   if (!sim_active || me < 0) return;
+  const int saved_errno = errno;
+  spin_hint_inner();
+  errno = saved_errno;
+}
+static void spin_hint_inner(void) {
   if (sim_hook_spin) sim_hook_spin();
   account_step(K_SPIN);
   if (preempt_off) return;
@@ -998,6 +1010,11 @@ int sim_fiber_wakeups(void* f) {
   return i >= 0 ? (int)G[i].wakeups : 0;
 }
 void* sim_current_fiber(void) { return glue_current_fiber(); }
+int sim_fiber_lib_state(void* f) { return f ? glue_fiber_state(f) : 0; }
+int sim_fiber_is_saved(void* f) {
+  int i = gfind(f);
+  return i >= 0 && G[i].g == G_SAVED;
+}
 uint64_t sim_fiber_switches(void) { return stat_fswitch; }
 uint64_t sim_migrations(void) { return stat_migr; }
 uint64_t sim_fiber_switches_on_thread(int t) { return fsw_thread[t]; }
